@@ -62,11 +62,12 @@ def sampleWords (c : List Nat) (vals : List Nat) : List (List Nat) :=
   (List.range (n - 2)).map (fun i => corrupt c [(i, 1), (i + 1, 2), (i + 2, 3)])
 
 def word16 : List Nat := (encodeWord GF.aztecParam [5, 11, 2] 4).toOption.getD []
+def word16long : List Nat := (encodeWord GF.aztecParam [1, 2, 3, 4, 5, 6, 7, 8, 9, 10, 11] 4).toOption.getD []
 def word256 : List Nat := (encodeWord GF.qrCode256 [32, 91, 11, 120] 6).toOption.getD []
 
 /-- GF(16), generator base 1: (7,3) code — 1 + 7·15 + 6·3 + 5 words; and malformed calls -/
 def samples16 : List (List Nat × Nat) :=
-  (sampleWords word16 (List.range' 1 15)).map (fun w => (w, 4)) ++
+  (sampleWords word16 (List.range' 1 15)).map (fun w => (w, 4)) ++ (sampleWords word16long [1, 9]).map (fun w => (w, 4)) ++
     [([], 4), ([1, 2, 3], 0), ([3, 20, 1, 0, 0, 0, 0], 4), ([0, 0, 0, 0, 0, 0, 1], 4), ([1, 2, 3, 4, 5, 6, 7, 8, 9, 10, 11, 12, 13, 14, 15, 1, 2], 4)]
 
 /-- GF(256), generator base 0: (10,4) code — clean, single errors with 4 values, double, triple errors -/
@@ -162,7 +163,7 @@ when_kernel Gzx.Gen.K04b.decFindErrorMagnitudes in
 def encSamples16 : List (List Nat × Nat) :=
   [([5, 11, 2, 0, 0, 0, 0], 4), ([0, 0, 1, 0, 0], 2), ([15, 0, 0, 0, 0, 0, 0], 6), ([1, 2, 3, 4, 5, 6, 7, 8, 9, 0, 0, 0, 0, 0], 5),
    ([0, 0, 0, 0, 0], 2), ([1, 2, 3], 0), ([1, 2], 2), ([], 1), ([1, 17, 0, 0], 2), ([9, 9, 9, 9, 7, 7, 7], 3),
-   ([0, 0, 0, 7, 7, 7], 3), ([0, 0, 1, 9, 9], 2), ([0, 1, 0, 5, 6, 7, 8], 4), ([0, 0, 0, 0, 3, 15, 15, 15, 15, 15, 15], 6)]
+   ([1, 2, 3, 4, 5, 6, 7, 8, 9, 10, 11, 0, 0, 0, 0], 4), ([0, 0, 0, 7, 7, 7], 3), ([0, 0, 1, 9, 9], 2), ([0, 1, 0, 5, 6, 7, 8], 4), ([0, 0, 0, 0, 3, 15, 15, 15, 15, 15, 15], 6)]
 
 def encSamples256 : List (List Nat × Nat) :=
   [([32, 91, 11, 120, 0, 0, 0, 0, 0, 0], 6), ([0, 0, 7, 0, 0, 0], 3), ([255, 254, 1, 0, 0, 0, 0, 0, 0, 0, 0, 0, 0], 10), ([1, 300, 0, 0], 2),
